@@ -74,6 +74,10 @@ class Obligation:
         self.reason = None
 
 
+# {function qualname: {identifier of the pinned text: identifier of the current text}} -- filled by the loader
+SPEC_RENAMES = {}
+
+
 class Env:
     def __init__(self, parent=None, func=None, module=None):
         self.vars = {}
@@ -91,6 +95,9 @@ class Env:
             if name in e.vars:
                 return e.vars[name]
             e = e.parent
+        new = self._renamed(name)
+        if new is not None:
+            return self.lookup(new)
         raise KeyError(name)
 
     def find(self, name):
@@ -98,6 +105,23 @@ class Env:
         while e is not None:
             if name in e.vars:
                 return e
+            e = e.parent
+        new = self._renamed(name)
+        if new is not None:
+            return self.find(new)
+        return None
+
+    def _renamed(self, name):
+        """the present name of an identifier of the pinned text, if the enclosing function equals its pinned text
+        up to a consistent renaming (pyvc/renames.py); None otherwise"""
+        if not SPEC_RENAMES:
+            return None
+        e = self
+        while e is not None:
+            if e.func is not None:
+                m = SPEC_RENAMES.get(getattr(e.func, "qualname", None))
+                if m and name in m and m[name] != name:
+                    return m[name]
             e = e.parent
         return None
 
